@@ -39,7 +39,7 @@ CHECKS["C08"] = dict(
 CHECKS["C04"] = dict(
     category="proof",
     text="Shape.rotate_translate_local, occupancy_shape_from_state (exact branch, incl. point-mass heading), the initial-occupancy invariant of obstacles, occupancy_at_time / state_at_time of static, dynamic (trajectory, set-based, no prediction), phantom and environment obstacles for a symbolic integer time step (before / at / inside / after the horizon), and the scenario-level queries (occupancies_at_time_step per role, obstacle_states_at_time_step, obstacles_by_role_and_type, obstacles_by_position_intervals) are executed symbolically from the real source; the four-way case split of the property is the postcondition, discharged by z3 for all time steps and coordinates. Trajectory / occupancy-set lengths are fixed small (2-3).",
-    note="the uncertain-state enclosure clause (region / angle-interval states) is NOT proved: its argument needs monotonicity of l*cos(d)+w*sin(d), beyond the sin/cos model. It is checked BOUNDED (labelled so in the evidence, never counted as discharged): occupancy_shape_from_state run natively on 973 (shape, position region, orientation / interval) cases x fixed admissible samples (corners, edge midpoints, centre, interval ends and interior, seeded random points), every boundary point of the placed shape tested against the returned region. Two known findings from it (asymmetric Polygon shape / asymmetric Polygon position region are not enclosed). Polygon.rotate_translate_local (shapely centroid rotation) is outside the model; floats are reals; list lengths fixed small",
+    note="scenario position-interval queries for five role sets (every two roles meet once); set-based occupancies with interval time steps and symbolic bounds; the uncertain-state enclosure clause (region / angle-interval states) is NOT proved: its argument needs monotonicity of l*cos(d)+w*sin(d), beyond the sin/cos model. It is checked BOUNDED (labelled so in the evidence, never counted as discharged): occupancy_shape_from_state run natively on 973 (shape, position region, orientation / interval) cases x fixed admissible samples (corners, edge midpoints, centre, interval ends and interior, seeded random points), every boundary point of the placed shape tested against the returned region. Two known findings from it (asymmetric Polygon shape / asymmetric Polygon position region are not enclosed). Polygon.rotate_translate_local (shapely centroid rotation) is outside the model; floats are reals; list lengths fixed small",
     technique="deductive: AST symbolic execution of real source + sidecar contracts, VCs discharged by z3; enclosure clause: bounded native contract evaluation on a stated grid",
     design_ref="5/C04",
 )
@@ -54,7 +54,7 @@ CHECKS["C11"] = dict(
 CHECKS["C12"] = dict(
     category="proof",
     text="For each of 54 scenario-element classes two instances are built through the public constructor with independent symbolic attribute values and the real __eq__/__hash__ source is executed symbolically: reflexivity, x == deepcopy(x), symmetry, 'all attributes agree => equal', 'exactly one constructor attribute differs (by more than 1e-10 if real) => unequal' (every attribute), hash totality (also with default optional arguments) and 'equal => equal hashes' are postconditions discharged by z3 for all values; discrete attributes (ids, enums, flags, member lists) and permuted insertion orders of id sets are covered by per-class variants.",
-    note="hash() is an uninterpreted function of the canonical tuple (numbers by value, frozensets commutative); np.array2string(np.around(a,10)) and str(float) are injective functions of the (rounded) values; round(x,10) is within 0.5e-10 of x; nested components of composite classes carry a few symbolic leaves each (their own class contract covers all of their attributes); collections have small concrete sizes",
+    note="plus, on concrete pairs, 18 'containers of different size' contracts (a trajectory / prediction / shape group / polygon / lanelet / goal region / cycle / sign / intersection / planning-problem set / network whose list or set is a strict prefix or subset of the other's is unequal in both directions); hash() is an uninterpreted function of the canonical tuple (numbers by value, frozensets commutative); np.array2string(np.around(a,10)) and str(float) are injective functions of the (rounded) values; round(x,10) is within 0.5e-10 of x; nested components of composite classes carry a few symbolic leaves each (their own class contract covers all of their attributes); collections have small concrete sizes",
     technique="deductive: AST symbolic execution of real __eq__/__hash__ source on two symbolic instances per class, VCs discharged by z3",
     design_ref="5/C12",
 )
@@ -62,7 +62,7 @@ CHECKS["C12"] = dict(
 CHECKS["C09"] = dict(
     category="proof",
     text="The representation invariant WF (id pool == ids of all contained objects incl. incoming elements, all ids pairwise distinct) is shown to be established by Scenario.__init__ and preserved by every public operation of the property (add_objects for each of the ten object kinds, remove_obstacle / remove_lanelet / remove_traffic_sign / remove_traffic_light / remove_intersection in single and list form, erase / replace_lanelet_network, generate_object_id), executed symbolically from the real source on a populated scenario (two lanelets sharing a sign, a light, an intersection with an incoming, one obstacle per role) whose ids are ALL symbolic integers, so every collision pattern of the operation's argument is covered; postconditions: ValueError and unchanged scenario on a used id, exact growth/shrink of the id set incl. cascades, re-adding a removed object succeeds, generated ids unused and never repeated. The history quantifier is discharged by induction over operations (WF is inductive).",
-    note="population shape fixed (2 lanelets, 1 sign, 1 light, 1 intersection, 4 obstacles); ids unbounded symbolic; dict/set with symbolic keys modelled by case-splitting equality of keys; adding a second lanelet network on top of a non-empty one via add_objects is not exercised (replace_lanelet_network is)",
+    note="also: an id that was generated stays reserved when the network - the scenario's only content - is erased or replaced (generate / erase or replace / generate); population shape fixed (2 lanelets, 1 sign, 1 light, 1 intersection, 4 obstacles); ids unbounded symbolic; dict/set with symbolic keys modelled by case-splitting equality of keys; adding a second lanelet network on top of a non-empty one via add_objects is not exercised (replace_lanelet_network is)",
     technique="deductive: inductive invariant over the public operations, AST symbolic execution of real source with symbolic ids, VCs discharged by z3",
     design_ref="5/C09",
 )
@@ -70,7 +70,7 @@ CHECKS["C09"] = dict(
 CHECKS["C10"] = dict(
     category="proof",
     text="LaneletNetwork.remove_lanelet / remove_traffic_sign / remove_traffic_light / remove_intersection, the three cleanup_* functions, Scenario.remove_lanelet with remove_hanging_lanelet_members, create_from_lanelet_list and create_from_lanelet_network (shape + excluded types) are executed symbolically from the real source on a network template (4 lanelets with predecessor/successor/adjacency relations, 2 signs, 2 lights, a stop line, an intersection with incoming and crossing) whose ids are ALL symbolic; the removed id is symbolic too (covers every element and a non-existing id). Postconditions: no remaining element refers to a removed id (all relation kinds incl. stop-line references, incoming/successor/crossing sets), every remaining lanelet keeps exactly its old relations minus the removed ids with unchanged geometry, nothing else disappears, signs/lights vanish with a lanelet iff no remaining lanelet references them; cut-out keeps exactly the lanelets whose polygon intersects the shape (abstract predicate) and whose types are not excluded.",
-    note="one network template (relation structure fixed, ids symbolic); sequences of removals follow by induction because each operation re-establishes no-dangling from a no-dangling network; shapely intersects() is an uninterpreted predicate; deepcopy modelled structurally",
+    note="the template carries a stop line with only a light reference and one with only a sign reference, a traffic light referenced by no lanelet, a right-turn-only incoming, a right neighbour driving in the opposite direction; cut-outs: an incoming is kept exactly when one of its incoming lanelets and one of its successors is kept, its successor sets restricted to the kept lanelets; one network template (relation structure fixed, ids symbolic); sequences of removals follow by induction because each operation re-establishes no-dangling from a no-dangling network; shapely intersects() is an uninterpreted predicate; deepcopy modelled structurally",
     technique="deductive: AST symbolic execution of real source with symbolic ids on a network template, invariant + frame postconditions discharged by z3",
     design_ref="5/C10",
 )
@@ -86,7 +86,7 @@ CHECKS["C07"] = dict(
 CHECKS["C20"] = dict(
     category="proof",
     text="Lanelet._compute_polyline_cumsum_dist / distance, interpolate_position and merge_lanelets are executed symbolically from the real source on lanelets with symbolic vertex coordinates (float and int arrays, 2-4 vertices): d[0]=0, d[i]-d[i-1] is the segment length (hence non-decreasing and ending at the centre-line length); for every 0<=s<=length the returned points are the convex combinations of the bracketing vertices with one common parameter in [0,1], no index leaves the polyline, inadmissible s is rejected; merged boundaries are the concatenation with the joint vertex once and the length is the sum, for every way the predecessor/successor link can be recorded. find_lanelet_successors/predecessors_in_range are executed for every directed graph on <= 3 lanelets (up to relabelling) plus six 4-lanelet graphs (cycles, diamond, inner cycle) with SYMBOLIC lanelet lengths and range: termination, chains of links, loop-free, start avoided, every direct neighbour covered, extension only while the accumulated length is below the range - decided for all length values per graph.",
-    note="graph size bounded (all graphs on <= 3 lanelets, selected graphs on 4; thorough tier adds 400 canonical 4-lanelet graphs and 3-vertex interpolation); polyline vertex counts 2-4; sqrt by its defining axioms; floats are reals",
+    note="distance also on integer vertex arrays (dtype-preserving numpy models); graph size bounded (all graphs on <= 3 lanelets, selected graphs on 4; thorough tier adds 400 canonical 4-lanelet graphs and 3-vertex interpolation); polyline vertex counts 2-4; sqrt by its defining axioms; floats are reals",
     technique="deductive: AST symbolic execution of real source, symbolic coordinates / lengths, graphs enumerated up to a stated size, VCs discharged by z3",
     design_ref="5/C20",
 )
@@ -94,7 +94,7 @@ CHECKS["C20"] = dict(
 CHECKS["C06"] = dict(
     category="proof",
     text="(a) Denotation consistency of every shape class from the real source: Circle.contains_point(p) <=> |p-c| <= r and the exported geometry is a disc around the centre; Rectangle._compute_vertices are exactly the corners c + R(theta)(+-l/2, +-w/2) and the exported polygon is that ring; Rectangle/Polygon/ShapeGroup.contains_point(p) <=> p in the exported geometry (incl. the bounding-box pre-check); the lanelet polygon is right boundary ++ reversed left boundary. (b) The spatial index (buffered polygons, STRtree, id map) mirrors the current lanelet polygons on every construction route: add_lanelet, create_from_lanelet_list, add_lanelets_from_network (also with an id clash), deepcopy, __getstate__/__setstate__, translate_rotate, remove_lanelet. (c) find_lanelet_by_position / find_lanelet_by_shape / contains_points / get_obstacles / map_obstacles_to_lanelets / filter_obstacles_in_network return exactly what the predicates select (group occupancies: any member). All discharged by z3 for symbolic query points, shapes and poses. One listed known finding: the exported circle has radius r/2.",
-    note="relative to shapely: point-in-polygon / intersects are uninterpreted predicates on denotations, STRtree.query is assumed exact w.r.t. them, a polygon's points lie in its bounding box (assumed geometry fact); the 'geometric truth' of shapely as the library uses it is checked BOUNDED only (labelled so, never counted as discharged): 10 seeded networks (40 thorough) of 6 curved / overlapping / adjacent lanelets x 4 construction routes x 600 query points and 120 query shapes against an independent even-odd point-in-polygon and segment-intersection implementation, boundary cases within 1e-7 skipped; 2-lanelet networks; the half-radius circle geometry is a recorded known finding (KNOWN_FINDINGS.txt), not repaired because the unedited suite encodes it",
+    note="index routes include a deferred refresh (rtree=False additions, then remove_lanelet of an absent id; remove twice with the refresh requested by the second call); relative to shapely: point-in-polygon / intersects are uninterpreted predicates on denotations, STRtree.query is assumed exact w.r.t. them, a polygon's points lie in its bounding box (assumed geometry fact); the 'geometric truth' of shapely as the library uses it is checked BOUNDED only (labelled so, never counted as discharged): 10 seeded networks (40 thorough) of 6 curved / overlapping / adjacent lanelets x 4 construction routes x 600 query points and 120 query shapes against an independent even-odd point-in-polygon and segment-intersection implementation, boundary cases within 1e-7 skipped; 2-lanelet networks; the half-radius circle geometry is a recorded known finding (KNOWN_FINDINGS.txt), not repaired because the unedited suite encodes it",
     technique="deductive: AST symbolic execution of real source with abstract geometric predicates, representation invariant of the spatial index per construction route, VCs discharged by z3; shapely-vs-planar-geometry agreement: bounded native comparison on seeded networks",
     design_ref="5/C06",
 )
@@ -110,7 +110,7 @@ CHECKS["C01"] = dict(
 CHECKS["C15"] = dict(
     category="proof",
     text="The real XML writer is executed symbolically over writer histories on the abstract file system: the same writer writing twice, a second writer with another decimal precision (2, 7) constructed in between, and overwrite mode SKIP on an existing (real temporary) file. Postconditions: the second document is identical to the first (date aside) with the same number of elements; the document equals that of an identically constructed writer used alone (float_to_str is a function of value and precision, so a leaked precision shows as a different text term); under SKIP no write reaches the path and the real file is byte-for-byte unchanged.",
-    note="both writers: the XML histories as described; for the protobuf writer (message trees on the pbmodel) the history write_to_file / write_scenario_to_file / write_to_file on one writer object and an XML writer with another precision constructed and used in between, each document compared field by field with the one an identically constructed writer produces alone; SKIP also with the default file name (filename=None, a real file in a scratch working directory) for both formats; not enumerated: all interleavings beyond these histories (finite set of histories, stated); two XML writers of different precision both constructed before either writes (the history a memoising cache shows in); functools.lru_cache is modelled as a memo table keyed by argument equality (a case split per probe for symbolic arguments, no eviction); the module-global precision is modelled as a class-attribute overlay; documents compared as abstract trees (text of numbers compared by value and lexical class)",
+    note="further histories: XML - protobuf - XML on a lanelet network with non-ascending reference lists, protobuf - XML - protobuf with a lanelet without type, SKIP on an existing file of 0 bytes; both writers: the XML histories as described; for the protobuf writer (message trees on the pbmodel) the history write_to_file / write_scenario_to_file / write_to_file on one writer object and an XML writer with another precision constructed and used in between, each document compared field by field with the one an identically constructed writer produces alone; SKIP also with the default file name (filename=None, a real file in a scratch working directory) for both formats; not enumerated: all interleavings beyond these histories (finite set of histories, stated); two XML writers of different precision both constructed before either writes (the history a memoising cache shows in); functools.lru_cache is modelled as a memo table keyed by argument equality (a case split per probe for symbolic arguments, no eviction); the module-global precision is modelled as a class-attribute overlay; documents compared as abstract trees (text of numbers compared by value and lexical class)",
     technique="deductive: AST symbolic execution of real writer source over operation histories with an abstract file system, frame/non-interference postconditions discharged by z3",
     design_ref="5/C15",
 )
